@@ -40,6 +40,10 @@ fn cases() -> Vec<Case> {
             }
         }
     }
+    // the value's type is also defined by imported modules that sort before / after the module
+    for ety in [3usize, 4, 5] {
+        out.push(Case { kind: "extern_value_with_imports", addr: 0x10900, style: NumStyle::Hex, ety, exec: false, public: true });
+    }
     for ety in 0..ETYS.len() {
         out.push(Case { kind: "extern_without_address", addr: 0, style: NumStyle::Dec, ety, exec: false, public: true });
         // ... also when another extern value before it does have one
@@ -87,6 +91,11 @@ fn module_of(c: &Case) -> String {
     };
     match c.kind {
         "extern_value" => items.push(Item::ExternValue { name: "gv".into(), public: c.public, ty: ety, address: Some(c.addr as i128) }),
+        "extern_value_with_imports" => {
+            items.insert(0, Item::Use("aaa".into()));
+            items.insert(1, Item::Use("zzz".into()));
+            items.push(Item::ExternValue { name: "gv".into(), public: c.public, ty: ety, address: Some(c.addr as i128) });
+        }
         "extern_without_address" => items.push(Item::ExternValue { name: "gv".into(), public: c.public, ty: ety, address: None }),
         "extern_without_address_after_addressed" => {
             items.push(Item::ExternValue { name: "first".into(), public: true, ty: MTy::b("u32"), address: Some(c.addr as i128) });
@@ -233,7 +242,12 @@ pub fn run(tier: &str, only: Option<&Value>) -> i32 {
     for ps in [4usize, 8] {
         for &i in &idxs {
             let c = &all[i];
-            let input = pipe::Input::single(module_of(c));
+            let mut input = pipe::Input::single(module_of(c));
+            if c.kind == "extern_value_with_imports" {
+                let other = "pub type S {\n    pub q: u8,\n}\npub enum E: u8 {\n    Z,\n}\n".to_string();
+                input.modules.insert(0, ("aaa".into(), other.clone()));
+                input.modules.push(("zzz".into(), other));
+            }
             let v = pipe::run(&input, ps);
             rep.states += 1;
             rep.traces += 1;
